@@ -10,6 +10,7 @@ import (
 	"github.com/btcsuite/btcd/btcutil/v2/gcs/builder"
 	"github.com/btcsuite/btcd/chaincfg/v2"
 	"github.com/btcsuite/btcd/chainhash/v2"
+	"github.com/btcsuite/btcd/txscript/v2"
 	"github.com/btcsuite/btcd/wire/v2"
 )
 
@@ -39,6 +40,16 @@ func script(height int32, salt uint32, i byte) []byte {
 // MineBlock mines a valid child of parent that carries a coinbase and one
 // ordinary transaction with two outputs, and computes its filters.
 func MineBlock(p *chaincfg.Params, parent *Node, spacing time.Duration, salt uint32, label string) (*Node, *BlockData) {
+	return mineBlock(p, parent, spacing, salt, label, false)
+}
+
+// MineSegwitBlock is MineBlock with a witness-carrying transaction and a valid
+// witness commitment in the coinbase.
+func MineSegwitBlock(p *chaincfg.Params, parent *Node, spacing time.Duration, salt uint32, label string) (*Node, *BlockData) {
+	return mineBlock(p, parent, spacing, salt, label, true)
+}
+
+func mineBlock(p *chaincfg.Params, parent *Node, spacing time.Duration, salt uint32, label string, segwit bool) (*Node, *BlockData) {
 	height := parent.Height + 1
 	cb := wire.NewMsgTx(2)
 	cb.AddTxIn(wire.NewTxIn(&wire.OutPoint{Index: 0xffffffff}, []byte{byte(height), byte(salt), 0x01}, nil))
@@ -49,6 +60,23 @@ func MineBlock(p *chaincfg.Params, parent *Node, spacing time.Duration, salt uin
 	tx.AddTxIn(wire.NewTxIn(&wire.OutPoint{Hash: prev, Index: 0}, []byte{0x51}, nil))
 	tx.AddTxOut(wire.NewTxOut(1e8, script(height, salt, 2)))
 	tx.AddTxOut(wire.NewTxOut(2e8, script(height, salt, 3)))
+	var prevScripts [][]byte
+	if segwit {
+		// a witness spend (shaped like P2WPKH) and the coinbase's commitment
+		pub := make([]byte, 33)
+		pub[0], pub[1], pub[2] = 0x02, byte(height), byte(salt)
+		tx.TxIn[0].SignatureScript = nil
+		tx.TxIn[0].Witness = wire.TxWitness{{0x30, 0x01, byte(salt)}, pub}
+		if ps, err := txscript.ComputePkScript(nil, tx.TxIn[0].Witness); err == nil {
+			prevScripts = append(prevScripts, ps.Script())
+		}
+		nonce := make([]byte, 32)
+		cb.TxIn[0].Witness = wire.TxWitness{nonce}
+		wroot := blockchain.CalcMerkleRoot(
+			btcutil.NewBlock(&wire.MsgBlock{Transactions: []*wire.MsgTx{cb, tx}}).Transactions(), true)
+		commit := chainhash.DoubleHashB(append(wroot[:], nonce...))
+		cb.AddTxOut(wire.NewTxOut(0, append(append([]byte{}, blockchain.WitnessMagicBytes...), commit...)))
+	}
 	blk := &wire.MsgBlock{Transactions: []*wire.MsgTx{cb, tx}}
 	ub := btcutil.NewBlock(blk)
 	root := blockchain.CalcMerkleRoot(ub.Transactions(), false)
@@ -64,7 +92,7 @@ func MineBlock(p *chaincfg.Params, parent *Node, spacing time.Duration, salt uin
 	}
 	blk.Header = h
 	node := Adopt(parent, h, label)
-	f, err := builder.BuildBasicFilter(blk, nil)
+	f, err := builder.BuildBasicFilter(blk, prevScripts)
 	if err != nil {
 		panic(err)
 	}
